@@ -307,8 +307,11 @@ def main():
     # 2. generated tables
     ok, err = gen_tables()
     if not ok:
-        print("tables failed", err)
-        return 2
+        # the tables are read out of the code under test (extension table, kinds ...): a generator
+        # that crashes is a correspondence that no longer checks, not an error of the caller
+        rp = write_replay(pid, "infrastructure", {"error": "Generated/Tables.lean cannot be regenerated from /repo (agv-harness tables failed)", "broken": ["correspondence generated tables"], "log": (err or "")[-3000:]})
+        print(f"VIOLATION property={pid} replay={rp} no-failing-input-found")
+        return 1
     # 3. proof obligations
     targets = list(cfg["lean_modules"]) + ["AstGrepVerif.Generated.Tables", "agv-driver"]
     ok, out = lake_build(targets)
@@ -364,7 +367,10 @@ def main():
                 rec = json.loads(lo)
                 stats["evaluations"] += 1
                 if rec["op"] == "oracle":
-                    stats["oracle_cases"] += int(rec.get("detail", {}).get("cases", 1)) if rec["ok"] else 1
+                    ncases = int(rec.get("detail", {}).get("cases", 1)) if rec["ok"] else 1
+                    stats["oracle_cases"] += ncases
+                    po = stats.setdefault("per_oracle", {})
+                    po[rec["name"]] = po.get(rec["name"], 0) + ncases
                     if not rec["ok"]:
                         stats["oracle_failures"] += 1
                         fp = rec["detail"].get("fp", rec["name"])
@@ -479,6 +485,8 @@ def main():
             "per_op": stats["per_op"],
             "oracle_cases": stats["oracle_cases"],
             "oracle_failures": stats["oracle_failures"],
+            "oracle_cases_by_name": stats.get("per_oracle", {}),
+            "vacuous_oracles": sorted(k for k, v in stats.get("per_oracle", {}).items() if v == 0),
             "oracle_skipped_outside_quantifier": stats.get("oracle_skipped", 0),
             "hypothesis_measurements": stats.get("info", {}),
             "known_finding_hits": known_hits,
